@@ -520,6 +520,12 @@ impl Rc {
     }
     fn id(&mut self) -> u64 {
         self.next_id += 1;
+        // the peer chooses its request ids: every fourth one sits at an edge of the range (exchanges are sequential, so the
+        // same edge id coming round again is never in flight twice)
+        const EDGE: [u64; 8] = [0, u64::MAX, 1, 1 << 63, u32::MAX as u64, 1 << 32, u64::MAX - 1, (1 << 63) - 1];
+        if self.next_id % 4 == 0 {
+            return EDGE[((self.next_id / 4) % 8) as usize];
+        }
         0x00C1_7000_0000_0000 | (self.next_id << 4) | 5
     }
     async fn send(&mut self, f: Vec<u8>) -> Result<(), String> {
@@ -1269,7 +1275,118 @@ async fn run_client_group(g: &Group, hb: &Heartbeat) -> Acc {
     cx.acc.count("reconnects_after_failures", reconnects);
     drop(client);
     task.abort();
+    if let Some(l) = g.limit.filter(|l| *l >= 64 << 10) {
+        refusal_behind_stalled_send(&mut cx, l).await;
+    }
     cx.acc
+}
+
+/// An oversized client message must fail LOCALLY, also while another task's deliverable send is parked on a peer that stopped
+/// reading: the refusal needs nothing from the connection. K tasks send in-limit notifies (≈ 24 MiB in all) to a peer with an
+/// 8 KiB receive buffer that does not read; once that stall is seen to be in effect an oversized request / notify is issued and
+/// must come back with `MessageTooLarge` within a bound that is long on the heartbeat's clock; then the peer reads everything
+/// and every message it got is within the limit.
+async fn refusal_behind_stalled_send(cx: &mut Ctx<'_>, l: usize) {
+    let g = cx.g;
+    let p = g.path.name();
+    let c = CaseSpec { size: l + 1 + (g.seed % 4096) as usize, variant: 0, boundary: false, q: 0, unknown: false };
+    let mk = || -> std::io::Result<tokio::net::TcpListener> {
+        let s = tokio::net::TcpSocket::new_v4()?;
+        let _ = s.set_recv_buffer_size(8 * 1024);
+        s.bind("127.0.0.1:0".parse().unwrap())?;
+        s.listen(8)
+    };
+    let Ok(listener) = mk() else {
+        cx.acc.inconcl.push("stalled-send part: listener".into());
+        return;
+    };
+    let Ok(addr) = listener.local_addr() else { return };
+    let resume = Arc::new(tokio::sync::Notify::new());
+    let r2 = resume.clone();
+    let sizes: Arc<Mutex<Vec<usize>>> = Arc::new(Mutex::new(vec![]));
+    let s2 = sizes.clone();
+    let peer = tokio::spawn(async move {
+        let Ok((stream, _)) = listener.accept().await else { return };
+        let Ok(mut ws) = tokio_tungstenite::accept_async_with_config(stream, Some(unlimited_cfg())).await else { return };
+        r2.notified().await;
+        while let Some(Ok(m)) = ws.next().await {
+            if let WsMsg::Binary(b) = m {
+                s2.lock().unwrap().push(b.len());
+            }
+        }
+    });
+    let url = format!("ws://{addr}/repe");
+    let cl = match if g.defaults { WebSocketClient::connect(&url).await } else { WebSocketClient::connect_with_limits(&url, limits_for(g.limit)).await } {
+        Ok(c) => c,
+        Err(e) => {
+            cx.acc.inconcl.push(format!("stalled-send part: client connect: {e}"));
+            peer.abort();
+            return;
+        }
+    };
+    let per = l.min(1 << 20);
+    let k = ((24usize << 20) / per).clamp(2, 400);
+    let body = vec![0x5au8; per - 48 - 5];
+    let done = Arc::new(std::sync::atomic::AtomicUsize::new(0));
+    let mut sends = vec![];
+    for _ in 0..k {
+        let (cl, body, done) = (cl.clone(), body.clone(), done.clone());
+        sends.push(tokio::spawn(async move {
+            let r = cl.notify_with_formats("/sink", 1, Some(&body), 0).await;
+            done.fetch_add(1, std::sync::atomic::Ordering::SeqCst);
+            r.is_ok()
+        }));
+    }
+    tokio::time::sleep(Duration::from_millis(300)).await;
+    let finished = done.load(std::sync::atomic::Ordering::SeqCst);
+    if finished >= k {
+        // the kernel absorbed everything: no stall to speak of on this run
+        cx.acc.count("stalled_send_parts_where_the_peer_buffers_absorbed_everything", 1);
+    } else {
+        cx.acc.count("stalled_send_parts_with_sends_parked_on_a_non_reading_peer", 1);
+        let body = vec![0x5au8; c.size - 48 - 5];
+        cx.hb.reset();
+        let t0 = Instant::now();
+        let is_notify = g.path == Path::ClientNotify;
+        let res = tokio::time::timeout(Duration::from_secs(5), async {
+            if is_notify { cl.notify_with_formats("/sink", 1, Some(&body), 0).await } else { cl.call_with_formats_and_timeout("/sink", 1, Some(&body), 0, WINDOW).await.map(|_| ()) }
+        })
+        .await;
+        let still_stalled = done.load(std::sync::atomic::Ordering::SeqCst) < k;
+        match res {
+            Ok(Err(RepeError::MessageTooLarge { .. })) => {
+                cx.acc.count("oversized_client_messages_refused_locally_behind_a_stalled_send", 1);
+                cx.acc.count("refusal_behind_stalled_send_ms_total", t0.elapsed().as_millis() as u64);
+            }
+            Ok(Ok(())) => cx.viol(&c, format!("C17:oversized-client-message-not-refused:{p}"), "the call returned Ok behind a stalled send".to_string()),
+            Ok(Err(e)) => cx.viol(&c, format!("C17:oversized-client-message-wrong-error:{p}"), format!("behind a stalled send: expected MessageTooLarge, got: {e}")),
+            Err(_) if still_stalled => cx.progress_viol(
+                &c,
+                format!("C17:oversized-client-message-refusal-waits-for-the-peer:{p}"),
+                format!("{k} deliverable notifies of {per} bytes are parked on a peer that stopped reading ({finished} had completed); the oversized message was not refused locally within 5 s"),
+            ),
+            Err(_) => cx.acc.inconcl.push("stalled-send part: refusal slow but the stall had ended".into()),
+        }
+    }
+    resume.notify_one();
+    let mut ok = 0usize;
+    for h in sends {
+        match tokio::time::timeout(Duration::from_secs(30), h).await {
+            Ok(Ok(true)) => ok += 1,
+            Ok(_) => {}
+            Err(_) => {
+                cx.acc.inconcl.push("stalled-send part: parked sends did not complete within 30 s after the peer resumed".into());
+                break;
+            }
+        }
+    }
+    drop(cl);
+    let _ = tokio::time::timeout(Duration::from_secs(10), peer).await;
+    let seen = std::mem::take(&mut *sizes.lock().unwrap());
+    cx.acc.count("stalled_send_part_messages_sent_ok", ok as u64);
+    for n in seen {
+        cx.observe(&c, n);
+    }
 }
 
 // ------------------------------------------------------------------ stage
